@@ -21,6 +21,11 @@ CHECKS["C05"] = dict(
    text="Theorems in coq/theories/Props/C05.v over the model of validate_qubits and of every operator's apply (both duplicate-detection branches): the call returns Ok iff the arguments satisfy the documented rules (arity, every index < n, no control equal to a target incl. the matchgate's implicit target t+1, no repeated SWAP target, CNOT/Toffoli control count and distinctness), returns Err otherwise and never panics; every index/shift/subtraction of the code sits behind the check that guards it. The correspondence sweeps arity 0..3 and the values {0,1,n-2,n-1,n,n+1,63,64,2^32,usize::MAX} in every role for every operator on 1..5(7) and 10(..12) qubits, under catch_unwind with overflow checks on; verdict = outcome class Ok/Err/Panic against the validity Spec.",
    note="Operator level (Operator::apply for all 20 operator kinds). Entry points above it (State::operate, measure, circuits) are added as their models are built. Error variant/payload is compared with the model but only reported.",
    design="6 C05")
+CHECKS["C04"] = dict(
+   technique="Coq proof (every operator linear and inner-product preserving given its algebraic facts; circuits by induction on the gate list; inverse-pair table) + metamorphic relations evaluated inside coqc on the real Circuit::execute outputs, plus model correspondence",
+   text="Theorems in coq/theories/Props/C04.v over an abstract commutative ring: for gate lists of ANY length whose gates are valid and whose parameters satisfy their algebraic facts (h*h+h*h=1, c*c+s*s=1, U^dagger U = I, |e^{i phi}|=1), run_ops (the fold of Operator::apply that Circuit::execute performs) preserves <a|b> for all vectors a,b, is linear, keeps norm 1; each documented inverse pair (S/Sdag, T/Tdag, P/RX/RY/RZ with negated angle, ry_phase/ry_phase_dag, self-inverse H X Y Z CNOT SWAP Toffoli) with the same controls restores the state. Includes SWAP (basis permutation) and the Matchgate 4x4 block (two-level pairing). The correspondence executes random circuits up to 60 (thorough 400) gates on 1-8(10) qubits through the real crate and evaluates linearity, isometry and round trips in Coq on the implementation's outputs; failing circuits are shrunk.",
+   note="Partial for the clause 'deviation bounded by accumulated rounding': the drift is checked numerically against a tolerance scaled with circuit length, not proved (no Flocq error analysis). libm values enter as harness-computed inputs whose algebraic facts are the theorem's hypotheses.",
+   design="6 C04")
 NOT_YET = {}
 
 def main():
